@@ -32,6 +32,41 @@ CHECKS = {
             "Returned paths of " + W1 + " with steps / radii from 1e-3x to 10x the diameter are checked segment by segment in the space's own metric.",
             "Trusted: the space's own distance (C09).",
             "DESIGN.md section 5 C05"),
+    "C06": (True, "exploration",
+            "online deadline monitor on sampler events under a virtual clock (cost model), soundness on infeasible-by-construction worlds, query-budget trip as a logical-step progress bound",
+            "12 000 (quick) / 200 000 (thorough) solve / construct_roadmap calls with time limits 0..5000 ticks where every validity query and sampler call costs one tick: no iteration may begin after first-clock-read + T; no path may be returned in a world that is infeasible by construction (goal sealed by a shell >= 2 lvs thick, start sealed in, goal region invalid); no call may exceed a query budget >= 10x any terminating execution. Liveness is restated as this bounded-step property.",
+            "Trusted: the clock shim (hook H2/H3; a solve that never read it is reported inconclusive), triangle inequality of the metric for the infeasibility argument. Known finding K-2 (resolution fraction <= 0).",
+            "DESIGN.md section 5 C06"),
+    "C07": (True, "exploration",
+            "differential runtime check: two fresh instances with the same seed driven through the same call history, compared at every call; prefix consistency across iteration budgets; real vs virtual time",
+            "6 000 / 100 000 call histories (incl. repeated solve, re-setup, solve before setup, PRM set_problem_definition and re-construction, goal samplers that consume the generator) are executed twice and compared bit for bit (paths), by variant (errors) and by snapshot hash; plus prefix pairs and real-time runs.",
+            "Trusted: deterministic harness callbacks; both instances share a thread so thread-local / OS entropy shows up as a difference.",
+            "DESIGN.md section 5 C07"),
+    "C08": (True, "fault_enumeration",
+            "reference-model monitor of the planner API state machine over call histories, sampler fault injection at every call index k < 12, out-of-range parameters, panic monitor over well-formed runs (thorough: + Miri)",
+            "Every call of random histories (length <= 8; thorough: all sequences of length <= 5) is compared with a sequential model (uninitialised / unsampled / invalid start / answers the installed problem); uniform and goal samplers fail at call k for every k < 12; goal bias in {-0.1, 1.5, NaN, +-inf}; empty start list; 4 000 / 60 000 generated scenarios run under the panic monitor. Panics keyed on (planner, injected trigger) are the known finding K-3; any other panic or model mismatch is a violation.",
+            "Trusted: the reference model (40 lines), catch_unwind. After a panic the history stops.",
+            "DESIGN.md section 5 C08"),
+    "C15": (True, "exploration",
+            "structural invariant hook checked at every quiescent point of single-stepped planners (snapshot H4), edge coverage from the query log",
+            "RRT / RRT-Connect / RRT* are single-stepped (solve(0) under the virtual clock = one iteration) through scripted samples over alphabets with duplicates, seam / antipodal and boundary states (3 000 / 40 000 random scripts, all scripts up to depth 4 over a 6-letter alphabet on 6 / 48 worlds); after every step the snapshot is checked for parents in range, single root = start / goal sample, acyclicity (bounded walk), node validity, edge length and motion-check coverage.",
+            "Trusted: snapshot accessor (read-only clone); space's distance for coverage.",
+            "DESIGN.md section 5 C15"),
+    "C16": (True, "exploration",
+            "transition monitor over consecutive snapshots + the logged sample of each single-stepped iteration; Hoeffding bound on goal-sample frequency",
+            "Each observed transition is checked against the nearest-node / one-step rule (ties existential), at most one node per tree, rejection only after a rejected query, RRT-Connect balance / connect / termination rules; goal-bias frequencies over 18 / 72 long seeded runs against Hoeffding at alpha 1e-9.",
+            "Trusted: tolerances of DESIGN.md section 3.",
+            "DESIGN.md section 5 C16"),
+    "C17": (True, "exploration",
+            "transition monitor for RRT* (snapshot with costs before / after, per-step query log) plus RRT-vs-RRT* differential on the same seed",
+            "For every RRT* extension: cost = parent cost + edge, parent in the candidate set, no cheaper neighbour skipped unless a query on its motion was rejected, parent link and rewired links validated in that iteration, exactly the neighbours that become cheaper are re-parented, others untouched, recorded cost >= true branch length; 1 500 / 20 000 RRT-vs-RRT* pairs (same end state, RRT* not longer).",
+            "Trusted: tolerances; the existential treatment of tied nearest nodes.",
+            "DESIGN.md section 5 C17"),
+    "C18": (True, "exploration",
+            "roadmap snapshot compared with the accepted samples of the event log, graph invariants, link completeness, reference multi-source BFS for every query",
+            "6 000 / 80 000 PRM life cycles with exact sample budgets (virtual clock), scripted (incl. all scripts to depth 4) and planner-RNG samples, radii from isolated nodes to complete graphs, obstacle-free and obstructed worlds, replaced problems.",
+            "Trusted: reference BFS; start links bracketed between certain and possible in obstructed worlds (exact in obstacle-free ones).",
+            "DESIGN.md section 5 C18"),
     "C09": (True, "exploration",
             "runtime oracle over executed distance calls: metric axioms + independent reference on exhaustive lattice triples and seeded random triples",
             "Every distance call made by the workload (all ordered triples of a 56/110-value special lattice per space setting, plus 2e4/4e5 random triples, 28-74 space settings incl. compounds with weights 0/1e-3/1/50 and the erased *_dyn interface) is checked online against the metric axioms, the diameter bound, representation independence and an independent atan2-based reference. Exploration: holds on the executions observed, nothing more.",
